@@ -17,6 +17,10 @@ pub enum Op {
     Hold(f32, u64),
     /// n inputs uniform in [lo, hi] from a private generator (range clause only)
     Noise(u64, u64, f32, f32),
+    /// process(y_prev) n times: the output fed back as the input (a glide frozen where it is)
+    Feedback(u64),
+    /// hold the input at (the output just produced + delta) for n samples
+    RelStep(f32, u64),
 }
 
 #[derive(Clone, Debug)]
@@ -37,6 +41,8 @@ impl History {
                 Op::SetTime(x) => format!("set_time {}  # {:e} s", f(*x), x),
                 Op::Hold(x, n) => format!("hold {} {}  # process({:e}) x n", f(*x), if i == upto_op { n_in_last.unwrap_or(*n) } else { *n }, x),
                 Op::Noise(s, n, lo, hi) => format!("noise {} {} {} {}", s, if i == upto_op { n_in_last.unwrap_or(*n) } else { *n }, f(*lo), f(*hi)),
+                Op::Feedback(n) => format!("feedback {}", if i == upto_op { n_in_last.unwrap_or(*n) } else { *n }),
+                Op::RelStep(d, n) => format!("rel_step {} {}  # hold at output + {:e}", f(*d), if i == upto_op { n_in_last.unwrap_or(*n) } else { *n }, d),
             });
         }
         t.to_text()
@@ -51,6 +57,11 @@ impl History {
                 "hold" => {
                     let x = pf(it.next().ok_or("arg")?)?;
                     ops.push(Op::Hold(x, pu(it.next().ok_or("arg")?)?))
+                }
+                "feedback" => ops.push(Op::Feedback(pu(it.next().ok_or("arg")?)?)),
+                "rel_step" => {
+                    let d = pf(it.next().ok_or("arg")?)?;
+                    ops.push(Op::RelStep(d, pu(it.next().ok_or("arg")?)?))
                 }
                 "noise" => {
                     let s = pu(it.next().ok_or("arg")?)?;
@@ -205,10 +216,14 @@ pub fn execute(h: &History, want: &str, rep: &mut Report) -> Option<Violation> {
                 seg_n = 0;
                 settime_in_hold = true;
             }
-            Op::Hold(_, _) | Op::Noise(_, _, _, _) => {
+            Op::Hold(_, _) | Op::Noise(_, _, _, _) | Op::Feedback(_) | Op::RelStep(_, _) => {
+                let rel_level: f32 = if let Op::RelStep(d, _) = op { y_prev as f32 + *d } else { 0.0 };
                 let (n, is_hold) = match op {
                     Op::Hold(_, n) => (*n, true),
+                    Op::RelStep(_, n) => (*n, true),
                     Op::Noise(_, n, _, _) => (*n, false),
+                    // the fed-back value is a new constant input each time the output moves: treated as holds
+                    Op::Feedback(n) => (*n, true),
                     _ => unreachable!(),
                 };
                 let mut nr = if let Op::Noise(s, _, _, _) = op { Some(Rng::new(*s)) } else { None };
@@ -216,6 +231,8 @@ pub fn execute(h: &History, want: &str, rep: &mut Report) -> Option<Violation> {
                     let x: f32 = match op {
                         Op::Hold(x, _) => *x,
                         Op::Noise(_, _, lo, hi) => nr.as_mut().unwrap().uniform(*lo as f64, *hi as f64) as f32,
+                        Op::Feedback(_) => y_prev as f32,
+                        Op::RelStep(_, _) => rel_level,
                         _ => unreachable!(),
                     };
                     let y = call!(g.process(x), i, Some(k)) as f64;
@@ -427,7 +444,7 @@ fn pick_time(r: &mut Rng, fs: f32, max_samples: f64) -> f32 {
 fn pick_level(r: &mut Rng) -> f32 {
     match r.below(8) {
         0 => 0.0,
-        1 => *r.pick(&[1.0f32, -1.0, 10.0, -10.0, 5.0, 1e-3, 1e3]),
+        1 => *r.pick(&[1.0f32, -1.0, 10.0, -10.0, 5.0, 1e-3, 1e3, -1e3]),
         2 => r.uniform(0.0, 10.0) as f32,
         _ => r.uniform(-10.0, 10.0) as f32,
     }
@@ -461,6 +478,13 @@ pub fn gen_mixed(r: &mut Rng, max_samples: f64, n_seg: usize) -> History {
                 let (a, b) = (pick_level(r), pick_level(r));
                 ops.push(Op::Noise(r.next_u64(), 1 + r.below(200), a.min(b), a.max(b)));
             }
+            4 if r.chance(0.5) => {
+                // freeze a glide where it is (the output fed back as the input), then a small step from there
+                ops.push(Op::Hold(pick_level(r), 1 + (nt * r.uniform(0.02, 0.5)) as u64));
+                ops.push(Op::Feedback(1 + r.below(6)));
+                let last = pick_level(r);
+                ops.push(Op::Hold(last, (nt * 1.2) as u64 + 20));
+            }
             3 => {
                 // switch to a (nearly) instantaneous setting in the middle of a glide
                 ops.push(Op::Hold(pick_level(r), 1 + (nt * r.uniform(0.02, 0.4)) as u64));
@@ -486,6 +510,15 @@ pub fn gen_mixed(r: &mut Rng, max_samples: f64, n_seg: usize) -> History {
 }
 
 /// C14: one clean step on a fresh processor at (fs, t), optional offset
+/// C14: a glide toward `far` frozen part-way by feeding the output back, then a clean step of `step` from there
+pub fn gen_frozen_step(fs: f32, t: f32, far: f32, frac: f64, step: f32) -> History {
+    let nt = (t.min(10.0) as f64) * fs as f64;
+    let n = nt.ceil() as u64 + 3;
+    // the step is relative: Hold takes an absolute level, so the executor needs the frozen level; it is reached by a
+    // dedicated replayable op sequence: hold(far) for a fraction of t, feedback, then RelStep
+    History { fs, ops: vec![Op::SetTime(t), Op::Hold(far, 1 + (nt * frac) as u64), Op::Feedback(8), Op::RelStep(step, n)] }
+}
+
 pub fn gen_step(fs: f32, t: f32, from: f32, to: f32) -> History {
     let mut ops = Vec::new();
     let n = ((t.min(10.0) as f64) * fs as f64).ceil() as u64 + 3;
@@ -563,7 +596,7 @@ pub fn shrink(h: &History, want: &str, v: Violation) -> Violation {
         None => return v,
     };
     let total: u64 = base.ops.iter().map(|o| match o {
-        Op::Hold(_, n) | Op::Noise(_, n, _, _) => *n,
+        Op::Hold(_, n) | Op::Noise(_, n, _, _) | Op::Feedback(n) | Op::RelStep(_, n) => *n,
         _ => 1,
     }).sum();
     if base.ops.len() > 2000 || total > 300_000 {
@@ -654,7 +687,11 @@ pub fn run(ctx: &Ctx, prop: &str) -> Report {
                 _ => (0.0, r.log_uniform(1e-5, 10.0) as f32 * if r.chance(0.5) { 1.0 } else { -1.0 }),
             };
             let from = if t > 0.0502 { from } else { 0.0 };
-            let h = gen_step(fs, t, from, to);
+            let h = if j % 6 == 5 && (t as f64) * fs as f64 >= 100.0 {
+                gen_frozen_step(fs, t, to * 3.0 + 1.0, r.uniform(0.05, 0.6), (to - from) * 0.1)
+            } else {
+                gen_step(fs, t, from, to)
+            };
             run_and_record(&h, prop, &mut rep, sh == 0 && j < 2);
             rep.class(("plane", (t as f64 * fs as f64).max(0.1).log10().floor() as i64, (fs as f64).log10().floor() as i64, from != 0.0, to > from));
         }
@@ -688,6 +725,18 @@ pub fn run(ctx: &Ctx, prop: &str) -> Report {
         rep
     });
     stage("glide.mixed_histories", r, &mut rep, t0);
+    if !small {
+        // full-scale swings between the largest finite magnitudes the filter can carry (+-3e38), at several settings
+        let t0 = std::time::Instant::now();
+        let mut r = Report::new();
+        for (fs, t) in [(1000.0f32, 0.0f32), (48000.0, 0.01), (100.0, 2.0), (8000.0, 0.3)] {
+            let n = ((t as f64) * fs as f64).ceil() as u64 + 30;
+            let ops = vec![Op::SetTime(t), Op::Hold(-3e38, n), Op::Hold(3e38, n), Op::Hold(-3e38, 3), Op::Hold(3e38, 2), Op::Hold(0.0, n), Op::Hold(3e38, 1), Op::Hold(-3e38, n)];
+            run_and_record(&History { fs, ops }, prop, &mut r, false);
+            r.count("glide.full_scale_swing_histories", 1);
+        }
+        stage("glide.full_scale_swings", r, &mut rep, t0);
+    }
     if !small {
         // more than 2^16 set_time calls on one processor (alternating far apart, a few samples in between)
         let t0 = std::time::Instant::now();
